@@ -25,6 +25,8 @@ Semantic checks on the real rewrite's output (pseudo-random tensors from <seed>,
   rwsem_concat <sizes csv> <real offsets csv>                                               → ok | fail a=…
   rwsem_split <sizes csv> idx off size                                                      → ok | fail …
   rwsem_dw2conv kh kw M <orig weights csv> <new weights csv> seed                           → ok | fail …
+  rwsem_sconv H W C kh kw O sy sx <same 0/1> | W2 C2 kw2 sy2 sx2 <mode: s|v|e> et el | <orig weights csv HWIO> <new weights csv HWIO> seed
+       width-folded strided convolution (`fixup_strided_conv`) against the original, every output element          → ok | fail …
 -/
 namespace VelaVerif.Handlers.Rewrites
 open VelaVerif VelaVerif.Handlers VelaVerif.Rewrites VelaVerif.RewriteSem VelaVerif.Requant VelaVerif.TfliteRef
@@ -271,6 +273,33 @@ def handle (toks : List String) : Option String :=
         if d = c then none else some s!"fail oc={oc} oy={oy} ox={ox} ref={d} got={c}"
       bad.getD "ok"
     | _, _, _ => "err:parse"
+  | ["rwsem_sconv", h, w, c, kh, kw, o, sy, sx, same, w2, c2, kw2, sy2, sx2, mode, et, el, ow_, nw_, seed] =>
+    some <| match parseNats [h, w, c, kh, kw, o, sy, sx, w2, c2, kw2, sy2, sx2, et, el, seed], bool? same, csvInts ow_, csvInts nw_ with
+    | some [H, W, C, kh, kw, O, sy, sx, W2, C2, kw2, sy2, sx2, et, el, seed], some same, some ow_, some nw_ =>
+      if sy = 0 ∨ sx = 0 ∨ sy2 = 0 ∨ sx2 = 0 ∨ C = 0 then "err:geometry"
+      else if ow_.length ≠ kh * kw * C * O ∨ nw_.length ≠ kh * kw2 * C2 * O then "fail weight count"
+      else if W2 * C2 ≠ W * C then s!"fail the re-shaped IFM {W2}x{C2} has another row size than {W}x{C}"
+      else
+        let oh := outSize same H sy kh
+        let ow := outSize same W sx kw
+        let pt := padBefore same H sy kh oh
+        let pl := padBefore same W sx kw ow
+        -- the rewritten operator: SAME / VALID padding is recomputed from its own geometry, explicit padding is taken as is
+        let same2 := mode == "s"
+        let oh2 := if mode == "e" then oh else outSize same2 H sy2 kh
+        let ow2 := if mode == "e" then ow else outSize same2 W2 sx2 kw2
+        let pt2 := if mode == "e" then et else padBefore same2 H sy2 kh oh2
+        let pl2 := if mode == "e" then el else padBefore same2 W2 sx2 kw2 ow2
+        if oh2 ≠ oh ∨ ow2 ≠ ow then s!"fail output size {oh2}x{ow2} instead of {oh}x{ow}"
+        else
+          let oa := ow_.toArray; let na := nw_.toArray
+          let row : Nat → Nat → Int := fun y i => prand seed (y * (W * C) + i)        -- one IFM row as W*C (= W2*C2) values
+          let ifm1 : Nat → Nat → Nat → Int := fun y x ch => row y (x * C + ch)
+          let ifm2 : Nat → Nat → Nat → Int := fun y x ch => row y (x * C2 + ch)
+          (firstDiffPos oh ow O
+            (fun y x oc => TfliteRef.convAcc H W C ifm1 kh kw (fun ky kx ic => oa.getD (((ky * kw + kx) * C + ic) * O + oc) 0) sy sx 1 1 pt pl 3 y x)
+            (fun y x oc => TfliteRef.convAcc H W2 C2 ifm2 kh kw2 (fun ky kx ic => na.getD (((ky * kw2 + kx) * C2 + ic) * O + oc) 0) sy2 sx2 1 1 pt2 pl2 3 y x)).getD "ok"
+    | _, _, _, _ => "err:parse"
   | _ => none
 
 end VelaVerif.Handlers.Rewrites
